@@ -8,7 +8,7 @@ From PV Require Import lib.Sx lib.Str model.TextNodes model.TextWrite model.Text
 From PV Require Import spec.SpecTextXml spec.SpecTextVtt spec.SpecTextBlocks spec.SpecTextLines spec.SpecTextStyle.
 From PV Require Import proofs.TextXmlFacts proofs.TextVttFacts proofs.TextBlocksFacts.
 From PV Require Import proofs.TextReadFacts proofs.TextPayloadFacts proofs.TextRoundtripFacts.
-From PV Require Import proofs.TextAttrFacts proofs.TextAttrRoundFacts proofs.TextVttGroupFacts.
+From PV Require Import proofs.TextAttrFacts proofs.TextAttrRoundFacts proofs.TextVttGroupFacts proofs.TextVttDocFacts.
 Import ListNotations.
 Open Scope Z_scope.
 
@@ -198,6 +198,43 @@ Theorem C03_vtt_groups_one_layout : forall l lns, same_layout l lns = true ->
   map fst (vtt_groups lns) = match vtt_cue_text (map snd lns) with [] => [] | s => [s] end.
 Proof. exact vtt_groups_one_layout. Qed.
 Print Assumptions C03_vtt_groups_one_layout.
+
+(* ---- round 4: the WebVTT DOCUMENT (captions with node-level layouts, model/TextWriteVtt.v vtt_doc_g) ----
+   texts without LF / CR (node_ok): every group's cue text has no empty line inside (only a trailing break leaves an
+   empty LAST line) ... *)
+Theorem C03_vtt_groups_no_blank_line : forall lns, Forall (fun ln => node_ok (snd ln)) lns ->
+  Forall (fun g => forallb str_nonempty (removelast (split_ch 10 (fst g))) = true) (vtt_groups lns).
+Proof. exact vtt_groups_no_blank_line. Qed.
+Print Assumptions C03_vtt_groups_no_blank_line.
+
+(* ... and the reference block grammar (spec/SpecTextVtt.v: signature, blocks separated by empty lines, a cue starts at
+   every line containing the arrow) ACCEPTS the whole document and returns EXACTLY ONE CUE PER LAYOUT GROUP, in order,
+   whose payload lines are the lines of that group's cue text (cue_payload: a final empty line dropped): no cue is
+   created, lost, split, merged or truncated because of its text.  cap_ok: the timing line + cue settings contain the
+   arrow and no line end, text nodes contain no LF / CR.  (The per-line DISPLAY of tags and references, i.e. the step
+   from these raw lines to ok_cues_strict against the authored lines, is NOT part of this theorem: judged on real
+   output, stream F; C03_vtt_encode_roundtrip covers a line that is one encoded text.) *)
+Theorem C03_vtt_doc_cues_partial : forall settings caps, Forall (cap_ok settings) caps ->
+  vtt_cues (vtt_doc_g settings caps) =
+  Some (map (fun g => cue_payload (fst g)) (flat_map (fun c => vtt_groups (snd c)) caps)).
+Proof. exact vtt_doc_cues. Qed.
+Print Assumptions C03_vtt_doc_cues_partial.
+
+Definition ex_settings (l : Z) : str := if l =? 0 then [] else lit " line:10%".
+Definition ex_gcaps : list (str * list lnode) :=
+  [(lit "00:01.000 --> 00:02.500", [(1, NText (lit "up --")); (1, NText (lit "> down")); (1, NBreak); (2, NText (lit "x")); (2, NBreak)]);
+   (lit "00:03.000 --> 00:04.500", [(0, NText (lit "a & b"))])].
+Example C03_example_cap_ok : Forall (cap_ok ex_settings) ex_gcaps.
+Proof.
+  assert (T : forall tl, has_arrow tl = true -> lc tl = true -> has_arrow (tl ++ lit " line:10%") = true -> lc (tl ++ lit " line:10%") = true ->
+              forall l, has_arrow (tl ++ ex_settings l) = true /\ lc (tl ++ ex_settings l) = true).
+  { intros tl A B C D l. unfold ex_settings. destruct (l =? 0); [rewrite app_nil_r|]; split; assumption. }
+  constructor; [|constructor; [|constructor]]; (split; [apply T; vm_compute; reflexivity|]);
+    repeat constructor; try exact I; try (split; vm_compute; reflexivity).
+Qed.
+Example C03_example_doc_cues :
+  vtt_cues (vtt_doc_g ex_settings ex_gcaps) = Some [[lit "up --&gt; down"]; [lit "x"]; [lit "a &amp; b"]].
+Proof. vm_compute. reflexivity. Qed.
 
 (* ---- non-vacuity ---- *)
 Example C03_example_quoteattr :
